@@ -340,7 +340,7 @@ def explore_config_e3(args):
             n_bad += 1
 
     stats = explore(lambda ch: run_once_e3(cfg, ch), on_exec, max_executions=max_exec, max_deviations=max_dev,
-                    outcome_of=e2.outcome_fp)
+                    outcome_of=e2.outcome_fp, stop_when=lambda: n_bad >= 100)
     return {'cfg': cfg.brief(), 'executions': stats.executions, 'states': len(stats.states),
             'transitions': len(stats.transitions), 'outcomes': len(stats.outcomes), 'capped': stats.capped,
             'max_depth': stats.max_depth, 'viols': viols, 'viol_execs': n_bad}
